@@ -715,6 +715,8 @@ def _binarize_tree(tree, bare_bin_labels):
     if len(trees.children(tree)) > 2:
         direction = "left"
         remaining = trees.children(tree)
+        if not any([child.data.get('head') for child in remaining]):
+            raise ValueError("heads not marked?")
         last_tree = tree
         tree.children = []
         label = tree.data['label']
